@@ -153,6 +153,9 @@ type Check struct {
 	Timeout func(tier string) time.Duration
 	// Exhaustive reports whether the aggregate enumerated a finite space completely.
 	Exhaustive func(tier string, stats map[string]int64) bool
+	// RaceCase, if set, selects the cases that run in the race-detector build of the harness; the others run
+	// in the plain build (the parent starts children of both binaries).
+	RaceCase func(idx int) bool
 	// PostChild lets a check inspect a child's log/race files (parent side). It may append violations.
 	PostChild func(p *Parent, shard int, logPath string)
 }
@@ -230,7 +233,7 @@ func RunCase(ck *Check, tier string, seed int64, idx int, replay bool) (res *Cas
 }
 
 // ChildMain runs the cases of one shard and writes one JSON line per case.
-func ChildMain(id, tier string, seed int64, shard, of int, outPath string) int {
+func ChildMain(id, tier string, seed int64, shard, of int, outPath string, mode string) int {
 	ck := Lookup(id)
 	if ck == nil {
 		fmt.Fprintln(os.Stderr, "unknown check", id)
@@ -245,7 +248,15 @@ func ChildMain(id, tier string, seed int64, shard, of int, outPath string) int {
 	defer out.Close()
 	w := bufio.NewWriter(out)
 	n := ck.Cases(tier)
-	for idx := shard; idx < n; idx += of {
+	var mine []int
+	for idx := 0; idx < n; idx++ {
+		if mode != "all" && ck.RaceCase != nil && ck.RaceCase(idx) != (mode == "race") {
+			continue
+		}
+		mine = append(mine, idx)
+	}
+	for pos := shard; pos < len(mine); pos += of {
+		idx := mine[pos]
 		fmt.Fprintf(w, "{\"start\":%d}\n", idx)
 		w.Flush()
 		fmt.Fprintf(os.Stderr, "CASE %d start\n", idx)
@@ -447,15 +458,49 @@ func ParentMain(id, tier string, seed int64, self string) int {
 		timeout = ck.Timeout(tier)
 	}
 	var wg sync.WaitGroup
-	for i := 0; i < procs; i++ {
+	type childSpec struct {
+		bin, mode string
+		shard, of int
+	}
+	var specs []childSpec
+	if ck.RaceCase != nil {
+		dir := filepath.Dir(self)
+		nr, rr := 0, 0
+		for idx := 0; idx < ncases; idx++ {
+			if ck.RaceCase(idx) {
+				rr++
+			} else {
+				nr++
+			}
+		}
+		pn, pr := procs/2, procs-procs/2
+		if pn > nr {
+			pn = nr
+		}
+		if pr > rr {
+			pr = rr
+		}
+		for i := 0; i < pn; i++ {
+			specs = append(specs, childSpec{filepath.Join(dir, "pvh"), "norace", i, pn})
+		}
+		for i := 0; i < pr; i++ {
+			specs = append(specs, childSpec{filepath.Join(dir, "pvh-race"), "race", i, pr})
+		}
+	} else {
+		for i := 0; i < procs; i++ {
+			specs = append(specs, childSpec{self, "all", i, procs})
+		}
+	}
+	for i := range specs {
 		wg.Add(1)
 		go func(i int) {
 			defer wg.Done()
+			sp := specs[i]
 			outPath := filepath.Join(work, fmt.Sprintf("shard-%d.jsonl", i))
 			logPath := filepath.Join(work, fmt.Sprintf("child-%d.log", i))
 			logf, _ := os.Create(logPath)
-			cmd := exec.Command(self, "child", id, "--tier", tier, "--seed", strconv.FormatInt(seed, 10),
-				"--shard", strconv.Itoa(i), "--of", strconv.Itoa(procs), "--out", outPath)
+			cmd := exec.Command(sp.bin, "child", id, "--tier", tier, "--seed", strconv.FormatInt(seed, 10),
+				"--shard", strconv.Itoa(sp.shard), "--of", strconv.Itoa(sp.of), "--out", outPath, "--mode", sp.mode)
 			cmd.Stdout = logf
 			cmd.Stderr = logf
 			cmd.Env = append(os.Environ(), "PVH_SCRATCH="+scratch, "PVH_SCRATCH_DISK="+diskScratch, "TMPDIR="+scratch,
